@@ -56,7 +56,7 @@ func (p *Profile) FilterSamplesByName(focus, ignore, hide, show *regexp.Regexp) 
 
 	s := make([]*Sample, 0, len(p.Sample))
 	for _, sample := range p.Sample {
-		if focusedAndNotIgnored(sample.Location, focusOrIgnore) {
+		if focusedAndNotIgnored(sample.Location, focusOrIgnore, focus == nil) {
 			if len(hidden) > 0 {
 				var locs []*Location
 				for _, loc := range sample.Location {
@@ -230,8 +230,8 @@ func (loc *Location) matchedLines(re *regexp.Regexp) []Line {
 // focused/ignored locations. The map only contains locations that are
 // explicitly focused or ignored. Returns whether there is at least
 // one focused location but no ignored locations.
-func focusedAndNotIgnored(locs []*Location, m map[uint64]bool) bool {
-	var f bool
+func focusedAndNotIgnored(locs []*Location, m map[uint64]bool, noFocus bool) bool {
+	f := noFocus
 	for _, loc := range locs {
 		if focus, focusOrIgnore := m[loc.ID]; focusOrIgnore {
 			if focus {
